@@ -172,6 +172,17 @@ func (e *Engine) intrinsic(st *State, fn *ssa.Function, full string, args []Valu
 			}
 			e.runDeferredGo(st)
 			return nil, true
+		case "vfRaceBegin":
+			t, _ := constInt(args[0])
+			e.raceBegin(t)
+			return nil, true
+		case "vfRaceEnd":
+			e.raceEnd()
+			return nil, true
+		case "vfRaceCheck":
+			id, _ := constStr(args[0])
+			e.raceCheck(st, id, site)
+			return nil, true
 		case "vfInfeasibleOK":
 			e.InfeasibleOK = true
 			return nil, true
